@@ -59,6 +59,7 @@ class Shape:
     def __init__(self, sid, name, fields, vis, derives, soa_derives, soa_attrs, nested=None, drop=False, cls="grammar", note=""):
         self.sid, self.name, self.fields, self.vis, self.derives, self.soa_derives, self.soa_attrs = sid, name, fields, vis, derives, soa_derives, soa_attrs
         self.nested, self.drop, self.cls, self.note = nested, drop, cls, note
+        self.extra = ""     # extra items of the module (uses of what the declaration asked for)
         # fields: [(vis, name, type, is_nested)]
 
     def decl(self):
@@ -82,7 +83,8 @@ class Shape:
         vis = "pub" if self.vis == "pub" else "pub(crate)"
         return (f"/// module\npub mod m{self.sid} {{\n    #![allow(dead_code)]\n    use soa_derive::StructOfArray;\n    #[allow(unused_imports)] use super::{{Opaque, Zst}};\n"
                 + "\n".join("    " + l for l in self.decl().split("\n"))
-                + f"\n    /// touch the generated types\n    {vis} fn touch() -> usize {{ let v = {self.name}Vec::new(); v.len() + v.as_slice().len() }}\n}}\n")
+                + f"\n    /// touch the generated types\n    {vis} fn touch() -> usize {{ let v = {self.name}Vec::new(); v.len() + v.as_slice().len() }}\n"
+                + "\n".join("    " + l for l in self.extra.split("\n") if l) + "\n}\n")
 
     def desc(self):
         return {"id": self.sid, "class": self.cls, "decl": self.decl()[:600], "note": self.note}
@@ -183,6 +185,14 @@ def corner_corpus(start_id):
     add([("pub", "a", "u8", False)], derives=("Debug", "PartialEq", "Eq", "PartialOrd", "Ord", "Hash", "Clone"), soa=("Debug", "PartialEq", "Eq", "PartialOrd", "Ord", "Hash", "Clone"), note="all eight traits")
     add([("pub", "a", "u8", False)], attrs=[(k, "allow(dead_code)") for k in ("Vec", "Slice", "SliceMut", "Ref", "RefMut", "Ptr", "PtrMut")], note="soa_attr on every kind")
     add([("pub", "a", "u8", False)], attrs=[("Vec", "cfg_attr(test, derive(PartialEq))")], note="README example attribute")
+    # an attribute request is honoured on the type it names: the requested impl is usable there
+    tyof = {"Vec": "{n}Vec", "Slice": "{n}Slice<'static>", "SliceMut": "{n}SliceMut<'static>", "Ref": "{n}Ref<'static>", "RefMut": "{n}RefMut<'static>", "Ptr": "{n}Ptr", "PtrMut": "{n}PtrMut"}
+    for k in tyof:
+        sh = add([("pub", "a", "u8", False), ("pub", "b", "String", False)], derives=("Debug",), soa=(), attrs=[(k, "derive(Debug)")], note=f"soa_attr({k}, derive(Debug)) is usable")
+        sh.extra = f"fn needs_debug<T: ::std::fmt::Debug>() {{}}\n/// the requested impl exists\npub fn uses() {{ needs_debug::<{tyof[k].format(n=sh.name)}>() }}"
+    sh = add([("pub", "a", "u8", False), ("pub", "b", "String", False)], derives=("Debug", "Clone", "PartialEq"), soa=("Debug", "Clone", "PartialEq"), note="soa_derive traits are usable on every type")
+    sh.extra = ("fn needs<T: ::std::fmt::Debug + PartialEq>() {}\nfn needs_clone<T: Clone>() {}\n/// the requested impls exist\npub fn uses() { "
+                + " ".join(f"needs::<{t.format(n=sh.name)}>();" for t in tyof.values()) + f" needs_clone::<{sh.name}Vec>(); }}")
     return out
 
 
